@@ -169,7 +169,8 @@ def variants(inv, rnd, tier):
         for did in (0x0132, 0x0456, 0x0155, 0x0999, 0x10000, -1):
             for cp in (None, -1, 0, 3, 4):
                 for values in (None, b'\x11\x22', b'\x11', b''):
-                    for masks in (None, True, False, [(0, True)], [(0, True), (1, False), (2, True)], [(1, True)], [(5, True)], []):
+                    for masks in (None, True, False, [(0, True)], [(0, True), (1, False), (2, True)], [(1, True)], [(5, True)], [],
+                                  [(5, False)], [(0, True), (5, False)], [(5, False), (1, True)], [(0, False), (6, False)]):     # names the table does not define, given as cleared
                         a, b = a_io(did, cp, values, masks)
                         yield {}, a, b, 'io arguments'
     if inv.callid == 28:
